@@ -7,6 +7,7 @@ CONSTANTS
   Sizes = {}
   KvPool <- KvPoolSmall
   TokPool <- TokPoolSmall
+  MixPool <- MixPoolSmall
   Extra <- Race3
   GFirst = TRUE
   SelDet = FALSE
